@@ -201,7 +201,7 @@ def dicStr (tag : String) (d : Dic) : String :=
 
 /-- `H ...` line; `mark` replaces the body digest (and the Content-Length value) for JSON / multipart bodies -/
 def handlerObs (q : Request) (mark : String) : String :=
-  let hs := if mark.isEmpty then q.headers else dicSet q.headers sContentLength sStar
+  let hs := if mark.isEmpty || !hasHeader q.headers sContentLength then q.headers else dicSet q.headers sContentLength sStar
   let hs := if mark == "U1" then dicSet hs sContentType sMultipartStar else hs
   s!"H {hexFast q.method} {hexFast q.path} {hexFast q.querystring} {dicStr "Q" (parseQuery q.querystring)} {dicStr "N" hs} " ++
     (if mark.isEmpty then digest q.body else mark)
@@ -313,8 +313,10 @@ structure DlClient where
 /-- the oracle: (status, Content-Length, Content-Range, first offset, length) a client must observe -/
 def dlExpect (n : Nat) (c : DlClient) : Nat × Bytes × Bytes × Nat × Nat :=
   if c.b < 0 then (200, utoa n, [], 0, n)
-  else if c.b ≤ c.e ∧ c.e < (n : Int) then
-    (206, utoa (c.e - c.b + 1).toNat, contentRangeText c.b.toNat c.e.toNat n, c.b.toNat, (c.e - c.b + 1).toNat)
+  else if c.b ≤ c.e ∧ c.b < (n : Int) then
+    -- RFC 7233 2.1: a last position at or past the end means "to the end"
+    let e : Int := if c.e < (n : Int) then c.e else (n : Int) - 1
+    (206, utoa (e - c.b + 1).toNat, contentRangeText c.b.toNat e.toNat n, c.b.toNat, (e - c.b + 1).toNat)
   else (416, [48], contentRangeStar n, 0, 0)
 
 def sBin : Bytes := [98, 105, 110]
